@@ -369,6 +369,8 @@ type boundsFunc struct {
 	in   map[*cfg.Block]*bstate
 	recv *types.Var
 	pre  []lin // assumed preconditions (from the lifting)
+
+	negCache map[types.Object]bool // variables that may go negative (see needsLowerBound)
 }
 
 type boundsSite struct {
@@ -1546,7 +1548,7 @@ func (bf *boundsFunc) sites() []*boundsSite {
 					g.c++
 					st.Goals = append(st.Goals, g)
 					st.GoalDs = append(st.GoalDs, exprStr(x.Index)+" < len("+exprStr(x.X)+")")
-					if hasNegative(e) {
+					if bf.needsLowerBound(e, x.Index) {
 						st.Goals = append(st.Goals, newLin().add(e, -1))
 						st.GoalDs = append(st.GoalDs, "0 <= "+exprStr(x.Index))
 					}
@@ -1597,7 +1599,7 @@ func (bf *boundsFunc) sites() []*boundsSite {
 					st.Goals = append(st.Goals, lo.add(ln, -1))
 					st.GoalDs = append(st.GoalDs, exprStr(x.Low)+" <= len("+exprStr(x.X)+")")
 				}
-				if x.Low != nil && hasNegative(lo) {
+				if x.Low != nil && bf.needsLowerBound(lo, x.Low) {
 					st.Goals = append(st.Goals, newLin().add(lo, -1))
 					st.GoalDs = append(st.GoalDs, "0 <= "+exprStr(x.Low))
 				}
@@ -1608,6 +1610,100 @@ func (bf *boundsFunc) sites() []*boundsSite {
 	}
 	walk(bf.fi.Decl.Body)
 	return out
+}
+
+// needsLowerBound reports whether 0 <= e has to be proved: not when the expression has an unsigned type,
+// nor when it is a non-negative combination of lengths and a non-negative constant.
+func (bf *boundsFunc) needsLowerBound(l lin, e ast.Expr) bool {
+	if t := bf.info.TypeOf(e); t != nil {
+		if b, ok := t.Underlying().(*types.Basic); ok && b.Info()&types.IsUnsigned != 0 {
+			return false
+		}
+	}
+	if l.c < 0 {
+		return true
+	}
+	for _, v := range l.t {
+		if v < 0 {
+			return true
+		}
+	}
+	// a variable of the index that is somewhere in the function assigned a difference, decremented, or
+	// given the result of a search that can be -1 may be negative: the lower bound is then an obligation.
+	// (Stated assumption otherwise: integer parameters and counters only ever incremented are not
+	// negative when used as an index.)
+	neg := false
+	ast.Inspect(e, func(m ast.Node) bool {
+		id, ok := m.(*ast.Ident)
+		if !ok {
+			return true
+		}
+		obj := bf.info.Uses[id]
+		if obj == nil {
+			return true
+		}
+		if bf.mayGoNegative(obj) {
+			neg = true
+		}
+		return true
+	})
+	return neg
+}
+
+func (bf *boundsFunc) mayGoNegative(obj types.Object) bool {
+	if bf.negCache == nil {
+		bf.negCache = map[types.Object]bool{}
+	}
+	if v, ok := bf.negCache[obj]; ok {
+		return v
+	}
+	bf.negCache[obj] = false
+	res := false
+	subtracts := func(e ast.Expr) bool {
+		found := false
+		ast.Inspect(e, func(m ast.Node) bool {
+			switch x := m.(type) {
+			case *ast.BinaryExpr:
+				if x.Op == token.SUB {
+					found = true
+				}
+			case *ast.UnaryExpr:
+				if x.Op == token.SUB {
+					found = true
+				}
+			case *ast.CallExpr:
+				if f := callee(bf.info, x); f != nil && f.Pkg() != nil && (f.Pkg().Path() == "bytes" || f.Pkg().Path() == "strings") && strings.Contains(f.Name(), "Index") {
+					found = true
+				}
+				return false // other calls: their arguments do not make the result negative
+			}
+			return true
+		})
+		return found
+	}
+	ast.Inspect(bf.fi.Decl.Body, func(m ast.Node) bool {
+		switch s := m.(type) {
+		case *ast.AssignStmt:
+			for i, l := range s.Lhs {
+				if objOfIdent(bf.info, l) != obj {
+					continue
+				}
+				if s.Tok == token.SUB_ASSIGN {
+					res = true
+				}
+				if len(s.Lhs) == len(s.Rhs) && subtracts(s.Rhs[i]) {
+					res = true
+				}
+			}
+		case *ast.IncDecStmt:
+			if s.Tok == token.DEC && objOfIdent(bf.info, s.X) == obj {
+				res = true
+			}
+		}
+		return true
+	})
+	bf.negCache[obj] = res
+	return res
 }
 
 func hasNegative(l lin) bool {
